@@ -26,7 +26,7 @@ type Prog struct {
 	Fset   *token.FileSet
 	Pkgs   []*packages.Package
 	ByPath map[string]*packages.Package // keyed by path relative to module ("" = root)
-	Funcs  map[string]*FuncNode          // qualified name -> node
+	Funcs  map[string]*FuncNode         // qualified name -> node
 	ByObj  map[*types.Func]*FuncNode
 	ByLit  map[*ast.FuncLit]*FuncNode
 	ssa    *ssa.Program
